@@ -417,10 +417,11 @@ class Differ:
                     lhs_parent=lhs, lhs_iteration=idx,
                     rhs_parent=rhs, rhs_iteration=idx,
                     parentref=idx)
-            elif lele != rele:
+            else:
                 self._diffs.append(
                     DiffEntry(
-                        DiffActions.CHANGE, next_path, lele, rele,
+                        DiffActions.SAME if lele == rele
+                        else DiffActions.CHANGE, next_path, lele, rele,
                         lhs_parent=lhs, lhs_iteration=idx,
                         rhs_parent=rhs, rhs_iteration=idx,
                         parentref=idx))
